@@ -508,7 +508,7 @@ func init() {
 		Assume: []string{"int64 arithmetic is exact on grids up to 2^20 x 10"},
 		Classes: []fw.Class{
 			{Name: "exhaustive-3x3", Quick: 66429, Thorough: 66429, Run: c13Exhaustive, Exhaustive: "every sequence of 1..5 points on a 3x3 grid"},
-			{Name: "random", Quick: 150000, Thorough: 3000000, Run: c13Random},
+			{Name: "random", Quick: 150000, Thorough: 12000000, Run: c13Random},
 		},
 		Require: []string{"result_point", "result_line", "result_polygon", "n_over_50", "n_up_to_50", "kind_circle", "kind_coincident", "kind_collinear-general"},
 	})
